@@ -31,6 +31,8 @@ def plan(tier, seed):
     nr = 8 if q else 32
     specs += [dict(kind='rows', set='t32', seed=seed, shard=i, of=nr, per_row=120 if q else 8000) for i in range(nr)]
     specs += [dict(kind='rows', set='t16', seed=seed, shard=i, of=2, per_row=120 if q else 4000) for i in range(2)]
+    nf = 16 if q else 64
+    specs += [dict(kind='fields', set='t32', seed=seed, shard=i, of=nf, cap=2500 if q else 60000) for i in range(nf)]
     return specs
 
 
